@@ -318,6 +318,9 @@ pub const LINE_PATS: &[LinePat] = &[
     // inline flags and Unicode classes (predicates exact for the characters the alphabets hold)
     LinePat { re: "(?i)^abc$", matches: |t| t.eq_ignore_ascii_case("abc") },
     LinePat { re: r"^\p{Lu}", matches: |t| t.chars().next().is_some_and(char::is_uppercase) },
+    // counted repetition as the pattern's ONLY regex construct (no anchor, class, escape or group anywhere)
+    LinePat { re: "x{1}y", matches: |t| t.contains("xy") },
+    LinePat { re: "a{2}", matches: |t| t.contains("aa") },
     LinePat { re: r"(?x) ^ x \d $", matches: |t| { let c: Vec<char> = t.chars().collect(); c.len() == 2 && c[0] == 'x' && c[1].is_ascii_digit() } },
 ];
 
